@@ -11,7 +11,9 @@
    (H_f32_embed), under auto with the premises on json.Marshal's text (H_jfloat_rt); string, json.Number,
    []byte; time.Time under datetime, string, numeric, timestamp, binary (any nanoseconds: the re-read value
    is the same second and re-exports to the same text) and under auto (nanoseconds kept).
-   PARTIAL: multi-column rows, sub-rows, hidden columns, undeclared keys, the "none" column, NaN / Inf
+   Whole rows — any number of declared columns, nil columns, hidden columns, undeclared keys — are
+   C05_row_upto / C05_row_proved_pairings at the end of this file (proofs/TemplateLosslessRow.v).
+   PARTIAL: sub-rows, the "none" column, NaN / Inf
    under string and the five process time zones are decided by the
    fixed-point oracle of the template stream on the real package (every emitted line whose output
    template is lossless is re-read and re-emitted under the run's TZ); known finding F7 (year outside
@@ -76,4 +78,72 @@ Example C05_example : forall O jf jo,
   pipeline O encode_string parse_top_rv jf jo 4 (tpl1 [99] FNumeric (VInt KInt16 0)) (tpl1 [99] FNumeric (VInt KInt16 0))
     [123; 34; 99; 34; 58; 45; 51; 50; 55; 54; 56; 125]
   = Ok [123; 34; 99; 34; 58; 45; 51; 50; 55; 54; 56; 125; 10].
+Proof. intros. vm_compute. reflexivity. Qed.
+
+(* ---------------------------------------------------------------------------------------------
+   WHOLE ROWS (proofs/TemplateLosslessRow.v; the vocabulary — spec, slot, row_map, row_members, extras —
+   is described in props/C13.v). The line written for a row with any number of declared columns (typed
+   values of lossless pairings, nil columns written null, hidden columns not written) followed by
+   undeclared keys, sent through importer and exporter of the same template, comes out byte for byte,
+   newline included. slot_ok_fp = slot_ok and, for a nil or hidden column, cast.To(T, nil) = nil: the
+   exporter re-creates the row it was given and casts the nil such a column came back with (true of
+   every raw type cast.To knows; with an unknown dynamic type as raw type the real exporter refuses
+   {"c":null}: Example nil_unknown_rawtype_refused in the proofs file).
+   Sub-rows (WithRow) are not covered (finding F6). *)
+From Coq Require Import Permutation.
+From JL.proofs Require Import UntemplatedBridge TemplateLosslessRow.
+
+Theorem C05_row_upto : forall (O : oracles) jfloat jother n (spec : list (cdecl * slot)) (extras : list (str * jv)),
+  NoDup (map sname spec) -> Forall (slot_ok_fp O jfloat jother) spec -> extras_ok n (map sname spec) extras ->
+  exists line,
+    let t := tpl_of (map fst spec) in
+    write_jv (JObj (row_members spec ++ extras)) = Some line
+    /\ bind (create_row O parse_top_rv (S (S (S n))) t (RMap (row_map spec ++ rv_members extras)))
+            (marshal_row O encode_string jfloat jother (S (S (S n)))) = Ok line
+    /\ pipeline O encode_string parse_top_rv jfloat jother (S (S (S n))) t t line = Ok (line ++ [10]).
+Proof. exact fixed_point_row_upto. Qed.
+Print Assumptions C05_row_upto.
+
+Theorem C05_row_upto_any_order : forall (O : oracles) jfloat jother n (spec : list (cdecl * slot)) (extras : list (str * jv)) kvs,
+  NoDup (map sname spec) -> Forall (slot_ok_fp O jfloat jother) spec -> extras_ok n (map sname spec) extras ->
+  Permutation kvs (row_map spec) ->
+  exists line,
+    let t := tpl_of (map fst spec) in
+    write_jv (JObj (row_members spec ++ extras)) = Some line
+    /\ bind (create_row O parse_top_rv (S (S (S n))) t (RMap (kvs ++ rv_members extras)))
+            (marshal_row O encode_string jfloat jother (S (S (S n)))) = Ok line
+    /\ pipeline O encode_string parse_top_rv jfloat jother (S (S (S n))) t t line = Ok (line ++ [10]).
+Proof. exact fixed_point_row_upto_any_order. Qed.
+Print Assumptions C05_row_upto_any_order.
+
+Theorem C05_row_proved_pairings : forall (O : oracles) jfloat jother n (spec : list (cdecl * slot)) (extras : list (str * jv)),
+  NoDup (map sname spec) -> Forall (slot_proved O jfloat) spec -> extras_ok n (map sname spec) extras ->
+  exists line,
+    let t := tpl_of (map fst spec) in
+    write_jv (JObj (row_members spec ++ extras)) = Some line
+    /\ bind (create_row O parse_top_rv (S (S (S n))) t (RMap (row_map spec ++ rv_members extras)))
+            (marshal_row O encode_string jfloat jother (S (S (S n)))) = Ok line
+    /\ pipeline O encode_string parse_top_rv jfloat jother (S (S (S n))) t t line = Ok (line ++ [10]).
+Proof. exact fixed_point_row_proved_upto. Qed.
+Print Assumptions C05_row_proved_pairings.
+
+(* non-vacuity: the row of C13_row_example (eight declared columns — numeric int64, hidden, string with
+   non-ASCII text, nil, boolean, binary []byte, nil, datetime time.Time with nanoseconds — and two undeclared
+   keys) meets every premise, and its line ex_line is a fixed point *)
+Example C05_row_example : forall O jf jo,
+  NoDup (map sname ex_spec) /\ Forall (slot_proved O jf) ex_spec /\ extras_ok 5 (map sname ex_spec) ex_extras
+  /\ bind (create_row O parse_top_rv 8 (tpl_of (map fst ex_spec)) (RMap (row_map ex_spec ++ rv_members ex_extras)))
+          (marshal_row O encode_string jf jo 8) = Ok ex_line
+  /\ pipeline O encode_string parse_top_rv jf jo 8 (tpl_of (map fst ex_spec)) (tpl_of (map fst ex_spec)) ex_line
+     = Ok (ex_line ++ [10]).
+Proof.
+  intros. destruct (ex_row_ok O jf) as (Hnd & Hp & Hex).
+  destruct (C05_row_proved_pairings O jf jo 5 ex_spec ex_extras Hnd Hp Hex) as (line & _ & Hc & Hg).
+  cbv zeta in *. rewrite (ex_row_line O jf jo) in Hc. injection Hc as <-. auto.
+Qed.
+
+(* the same by evaluation of the model *)
+Example C05_row_example_computed : forall O jf jo,
+  pipeline O encode_string parse_top_rv jf jo 8 (tpl_of (map fst ex_spec)) (tpl_of (map fst ex_spec)) ex_line
+  = Ok (ex_line ++ [10]).
 Proof. intros. vm_compute. reflexivity. Qed.
